@@ -45,6 +45,8 @@ Step == /\ l <= Len(Log) /\ l' = l + 1
                   ELSE bad' = Append(bad, [sid |-> sid, line |-> l, why |-> why]) /\ skip' = TRUE /\ UNCHANGED <<sid, cands>>
              [] e.ev = "liveness" /\ e.returned < e.issued ->
                   bad' = Append(bad, [sid |-> e.sid, line |-> l, why |-> "the interface did not come back (a key or a load never returned)"]) /\ UNCHANGED <<sid, cands, skip>>
+             [] e.ev = "atomic" /\ e.observed # e.expected ->
+                  bad' = Append(bad, [sid |-> e.sid, line |-> l, why |-> "a background load was applied more than once, or not at all"]) /\ UNCHANGED <<sid, cands, skip>>
              [] e.ev = "race" -> bad' = Append(bad, [sid |-> 0, line |-> l, why |-> "data race reported by the race detector"]) /\ UNCHANGED <<sid, cands, skip>>
              [] e.ev = "unlocked" -> bad' = Append(bad, [sid |-> e.sid, line |-> l, why |-> "frame emitted without holding the UI mutex, or two frames at once"]) /\ UNCHANGED <<sid, cands, skip>>
              [] OTHER -> UNCHANGED <<sid, bad, cands, skip>>
